@@ -10,6 +10,8 @@ seeds = sorted(d for d in glob.glob("/verif/seeded/*") if sub in d and os.path.e
 
 def run(d):
     meta = json.load(open(d + "/meta.json"))
+    if meta.get("superseded"):
+        return d, "SUPERSEDED", None
     det = meta.get("detection", {})
     checks = [c.split()[1] for c in det.get("checks_run", [])] or [meta["property"]]
     expected = bool(det.get("detected"))
@@ -32,6 +34,9 @@ def run(d):
 bad = 0
 with ThreadPoolExecutor(int(os.environ.get("PAR", "4"))) as ex:
     for d, got, expected in ex.map(run, seeds):
+        if got == "SUPERSEDED":
+            print(os.path.basename(d), "superseded by a repair in /repo", flush=True)
+            continue
         detected = isinstance(got, dict) and any(v == 1 for v in got.values())
         flag = "ok" if detected == expected else ("NOW-DETECTED" if detected else "LOST")
         if flag == "LOST":
